@@ -296,6 +296,48 @@ def check_who_may_delete(ck, R4):
     return sites
 
 
+def _namedtuple_fields(ck, modname, must_have):
+    """Field list of the module-level namedtuple that has the given fields (the partition index entry)."""
+    m = ck.repo.module(modname)
+    for n in ast.walk(m.tree):
+        if isinstance(n, ast.Call) and A.call_attr(n) == "namedtuple" and len(n.args) == 2:
+            f = n.args[1]
+            names = [A.const_str(e) for e in f.elts] if isinstance(f, (ast.List, ast.Tuple)) else (A.const_str(f) or "").replace(",", " ").split()
+            if all(x in names for x in must_have):
+                return names
+        if isinstance(n, ast.ClassDef) and any(A.norm(b).endswith("NamedTuple") for b in n.bases):
+            names = [st.target.id for st in n.body if isinstance(st, ast.AnnAssign) and isinstance(st.target, ast.Name)]
+            if all(x in names for x in must_have):
+                return names
+    return list(must_have)
+
+
+def _entry_field(fa, expr, node_id, fields, depth=6):
+    """`expr` as a field of a record: (name-independent text of the record, field name) for `rec.field`,
+    `rec[i]`, or a local bound by `a, b, _ = rec` / `x = rec.field`; None otherwise."""
+    if depth <= 0:
+        return None
+    if isinstance(expr, ast.Attribute):
+        return (fa.xnorm(expr.value, node_id), expr.attr)
+    if isinstance(expr, ast.Subscript) and isinstance(expr.slice, ast.Constant) and isinstance(expr.slice.value, int) \
+            and 0 <= expr.slice.value < len(fields):
+        return (fa.xnorm(expr.value, node_id), fields[expr.slice.value])
+    if isinstance(expr, ast.Name):
+        ds = fa.df.reaching(node_id, expr.id)
+        if len(ds) != 1:
+            return None
+        d = ds[0]
+        if d.kind == "assign" and d.value is not None:
+            return _entry_field(fa, d.value, d.node, fields, depth - 1)
+        if d.kind == "unpack" and isinstance(d.stmt, ast.Assign) and len(d.stmt.targets) == 1 and isinstance(d.stmt.targets[0], (ast.Tuple, ast.List)):
+            elts = d.stmt.targets[0].elts
+            if len(elts) == len(fields) and not any(isinstance(e, ast.Starred) for e in elts):
+                for i, e in enumerate(elts):
+                    if isinstance(e, ast.Name) and e.id == expr.id:
+                        return (fa.xnorm(d.value, d.node), fields[i])
+    return None
+
+
 def _rest(ck, fa, R3, R4, R5, R6):
     # ---- R3
     strat = ck.repo.cls("storage_base.Codec.Strategy")
@@ -311,8 +353,11 @@ def _rest(ck, fa, R3, R4, R5, R6):
             okn = all(r.value is None or A.is_none(r.value) for r in f2.returns())
             ck.ob(R3, f2.key(None), okn, "constant load" if okn else "load neither reads versioned data nor is constant", f2.where())
             continue
-        ok = all(A.call_attr(x) == "input_versioned" and [A.norm(a) for a in x.args] == ["key"] for x in reads) and \
-            all([A.norm(a) for a in x.args][1:] == ["data_source", "key"] for x in ctor)
+        LP = f2.fi.params
+        ds_l, key_l = (LP[1], LP[2]) if len(LP) >= 3 else ("data_source", "key")
+        xn = lambda call: [f2.xnorm(a, f2.nodes(call)[0]) for a in call.args] if f2.nodes(call) else None
+        ok = all(A.call_attr(x) == "input_versioned" and xn(x) == [key_l] for x in reads) and \
+            all((xn(x) or [])[1:] == [ds_l, key_l] for x in ctor)
         ck.ob(R3, f2.key(None), ok, "load reads input_versioned(key)" if ok else
               "load does not read exactly the versioned key it was given", f2.where())
     for modname in ("storage_base",):
@@ -325,12 +370,23 @@ def _rest(ck, fa, R3, R4, R5, R6):
                                   "a codec reads through the mutable pointer (input_nonversioned): the memento no longer pins its bytes", A.loc(m, call))
     pp = FA(ck, "storage_base.DefaultCodec.PicklePartition.get")
     lc = pp.one(pp.calls("load"), "codec.load call")
-    okp = [pp.xnorm(a, pp.nodes(lc)[0]) for a in lc.args] == ["self._index[key].result_type", "self._data_source", "self._index[key].content_key"]
+    kp = pp.fi.params[1] if len(pp.fi.params) > 1 else "key"
+    fields = _namedtuple_fields(ck, "storage_base", ("result_type", "content_key"))
+    at = pp.nodes(lc)[0]
+    okp = len(lc.args) == 3 and not lc.keywords
+    if okp:
+        rt, ckf = _entry_field(pp, lc.args[0], at, fields), _entry_field(pp, lc.args[2], at, fields)
+        entries = ("self._index[%s]" % kp, "self._index.get(%s)" % kp)
+        okp = rt is not None and ckf is not None and rt[1] == "result_type" and ckf[1] == "content_key" \
+            and rt[0] == ckf[0] and rt[0] in entries and pp.xnorm(lc.args[1], at) == "self._data_source"
     ck.ob(R3, pp.key(None, "loads-indexed-key"), okp, "partition values are loaded by their indexed versioned key" if okp else
           "partition get() does not load (entry.result_type, data source, entry.content_key)", pp.where(lc))
     pi = FA(ck, "storage_base.DefaultCodec.PicklePartition.__init__")
     iv = pi.calls("input_versioned")
-    oki = len(iv) == 1 and [A.norm(a) for a in iv[0].args] == ["self._base_key"] and not pi.calls("input_nonversioned")
+    base_vals = {"self._base_key"} | {pi.xnorm(st.value, pi.nodes(st)[0]) for st in pi.stmts(ast.Assign)
+                                      if any(A.dotted(t) == "self._base_key" for t in st.targets) and pi.nodes(st)}
+    oki = len(iv) == 1 and len(iv[0].args) == 1 and bool(pi.nodes(iv[0])) and pi.xnorm(iv[0].args[0], pi.nodes(iv[0])[0]) in base_vals \
+        and not pi.calls("input_nonversioned")
     ck.ob(R3, pi.key(None, "index-read"), oki, "the partition index is read by its versioned key" if oki else
           "the partition index is not read through its versioned key", pi.where())
 
@@ -359,21 +415,29 @@ def _rest(ck, fa, R3, R4, R5, R6):
     ck.run(check_write_order, ck, "C07.R7", only_output=True)
     # ---- R5
     fo = FA(ck, FSDS + ".output")
-    opens = [c for c in fo.calls("open")]
-    wopen = fo.one([c for c in opens if c in ck.cg.fs_write_sites.get(fo.qual, [])], "write-mode open in output")
-    deps = fo.deps(A.call_recv(wopen)) if A.call_recv(wopen) is not None else fo.deps(wopen.args[0])
+    from .c08 import write_opens, open_path, path_role, OBJ_PATH
+    # the open that receives the object's bytes (a pointer write inlined into output is not it)
+    wopen = fo.one(write_opens(ck, fo)["object"], "write-mode open of the object in output")
+    deps = fo.deps(open_path(wopen))
     ok = "call:uuid4" in deps and "call:_get_path_versioned" in deps
     ck.ob(R5, fo.key(wopen, "fresh-version"), ok, "the object is written under a uuid4() version directory" if ok else
           "the written object path does not contain a fresh uuid4(): an existing version can be overwritten", fo.where(wopen))
     # ... and exactly AT the versioned path (no staging name derived from the key alone, which two
     # writers of the same key would share)
-    recv = A.call_recv(wopen) if A.call_recv(wopen) is not None else (wopen.args[0] if wopen.args else None)
+    recv = open_path(wopen)
     exact = False
     if isinstance(recv, ast.Call) and A.call_attr(recv) == "str" and recv.args:
         recv = recv.args[0]
     if isinstance(recv, ast.Name):
         ds = [d for i in fo.nodes(wopen) for d in fo.df.reaching(i, recv.id)]
         exact = bool(ds) and all(isinstance(d.value, ast.Call) and A.call_attr(d.value) == "_get_path_versioned" and len(d.value.args) == 1 and not d.value.keywords for d in ds)
+    if not exact and recv is not None and fo.nodes(wopen):
+        # the same fact through temporaries / wrappers: the opened path IS the value of the versioned-path builder
+        # called for the object (no metadata key)
+        from .c08 import _strip_path_wrappers
+        e = _strip_path_wrappers(fo.expand(recv, fo.nodes(wopen)[0]))
+        exact = path_role(fo, recv, fo.nodes(wopen)[0]) == "object" and isinstance(e, ast.Call) and A.call_attr(e) == OBJ_PATH \
+            and len(e.args) + len(e.keywords) == 1 and all(k.arg != "metadata_key" for k in e.keywords)
     ck.ob(R5, fo.key(wopen, "written-at-versioned-path"), exact, "bytes are written directly at the fresh versioned path" if exact else
           "the object's bytes are first written to `%s`, a name that is not the fresh versioned path: two writers of the same key share that "
           "file, so one version can end up holding the other's bytes" % A.short(recv, 60), fo.where(wopen))
